@@ -648,7 +648,7 @@ fn convert_class_names_and_rpx_in_block(input: &mut StepParser, ss: &mut StyleSh
                     Token::Function(func) => {
                         let func: &str = func;
                         let close = ss.append_nested_block(next.clone(), input);
-                        if func.eq_ignore_ascii_case("calc") {
+                        if is_math_function(func) {
                             convert_rpx_in_block(input, ss, Some(ConvertOptions { in_calc: true }));
                         } else {
                             // e.g. `:not(:is(.a .b))` : still selectors, at any depth
@@ -694,6 +694,39 @@ struct ConvertOptions {
     in_calc: bool,
 }
 
+/// Whether a function takes a calculation, in which `+` and `-` must be surrounded by whitespace.
+fn is_math_function(name: &str) -> bool {
+    let name = name.to_ascii_lowercase();
+    let name = ["-webkit-", "-moz-"]
+        .iter()
+        .find_map(|p| name.strip_prefix(p))
+        .unwrap_or(name.as_str());
+    matches!(
+        name,
+        "calc"
+            | "min"
+            | "max"
+            | "clamp"
+            | "round"
+            | "mod"
+            | "rem"
+            | "sin"
+            | "cos"
+            | "tan"
+            | "asin"
+            | "acos"
+            | "atan"
+            | "atan2"
+            | "pow"
+            | "sqrt"
+            | "hypot"
+            | "log"
+            | "exp"
+            | "abs"
+            | "sign"
+    )
+}
+
 fn convert_rpx_in_block(
     input: &mut StepParser,
     ss: &mut StyleSheetTransformer,
@@ -729,7 +762,7 @@ fn convert_rpx_in_block(
                     }
                     Token::Function(func) => {
                         let func: &str = func;
-                        let config = if in_calc || func.eq_ignore_ascii_case("calc") {
+                        let config = if in_calc || is_math_function(func) {
                             Some(ConvertOptions { in_calc: true })
                         } else {
                             None
